@@ -24,6 +24,8 @@ var c16Ops = []string{
 	". + [9]", "[9] + .", "flatten", "group_by(.a)", "to_entries", "with_entries(.)", "from_entries", `pick(["a"])`, "pick([1])", `omit(["a"])`, "omit([0])",
 	".a", ".ab", ".[0]", ".[1]", ".[]", `{"z": .}`, "(. as $x | $x)", "del(.[0])", "del(.a)", `. * {"c": 1}`, `. + {"c": 1}`,
 	"(.a = (.a | sort))", "(.a |= reverse)", "(.[0] = .[1])", "(.b = .a)", "(.a |= . + [9])", "(.[1] |= 7)", "unique_by(.a)", "[.[] | select(. != 1)]",
+	// something is computed from the value on the side (read-only) and the value itself goes on: where its nodes are must not change
+	"((.[1:]) as $t | .)", "((.a | .[1:]) as $t | .)", "((sort) as $t | .)", "((.a | reverse) as $t | .)", "(([.[]]) as $t | .)", "((.a | flatten) as $t | .)", "((. + [9]) as $t | .)", "((.a | unique) as $t | .)",
 	"map_values(.)", "to_entries | from_entries", "del(.[2])", "del(.a[0])", "del(.[0][0])", "(.c = .a)", "sort_keys(.)", "with(.a; . = 3)", ".. | select(kind == \"seq\")",
 }
 
